@@ -10,4 +10,5 @@ INVARIANT PendingMeansOutstanding
 INVARIANT Creation
 PROPERTY AwaitAllAtCompletion
 PROPERTY FailsOnlyIfAllFailed
+PROPERTY FailureNeedsFailedUpload
 PROPERTY ForeignInert
